@@ -73,6 +73,9 @@ def jobs(tier):
                 J.append(doio_job(nm + '.len9', op, vec, 3, 3, 1, 1, 3000, mem_gb=3))
                 J.append(doio_job(nm + '.retry2', op, vec, 3, 2, 2, 2, 3000, mem_gb=3))
             else: J.append(doio_job(nm, op, vec, 3, 3, 2, 2, 3000, mem_gb=3))
+    # two EAGAIN waits inside one vectored KernelSocketStream call: both waits must carry the deadline fixed at the start of the call
+    for nm, op in (('ks_readv', 54), ('ks_writev', 55)):
+        J.append(doio_job(nm + '.cnt2.again2', op, 1, 2, 2, 0, 2, 400 if q else 3000, extra=['FIXCNT=2'], mem_gb=6))
     for nm, op, what in (('epoll_fire', 0, 'wait_and_fire_events: one batch of kernel events'), ('epoll_waitfd', 1, 'wait_for_fd: register, sleep, event / timeout / interrupt'),
                          ('epoll_withdraw', 2, 'wait_for_fd(fd, 0): descriptor withdrawn before close')):
         J.append(Job(nm, 'C10/h_epoll.cpp', 'harness_epoll', defines=['OP=%d' % op], unwind=4, shims=['libc.c', 'c10_epoll.c'], ir2c=['--stub', '_M_default_appendEm$'],
